@@ -42,15 +42,33 @@ fn container_cont(fs: &[AFilter]) -> Result<Container, String> {
     Ok(c)
 }
 
+/// the element kinds a minimally rendered DLF filter writes
+fn dlf_elements(f: &AFilter) -> Vec<&'static str> {
+    let mut v = Vec::new();
+    if f.ecu.k != "none" { v.push("ecu"); }
+    if f.apid.k != "none" { v.push("apid"); }
+    if f.ctid.k != "none" { v.push("ctid"); }
+    if f.typ.k != "none" { v.push("ctrl"); }
+    if f.pay.k != "none" { v.push("pay"); }
+    if f.lmin >= 0 { v.push("lmin"); }
+    if f.lmax >= 0 { v.push("lmax"); }
+    v
+}
+
 /// the filter list `adlt convert` passes to filter_as_streams: a DLF file if every filter can be written in one (and
-/// the case asks for it), else JSON
-fn filter_list(fs: &[AFilter], want_dlf: bool) -> (Result<Vec<Filter>, String>, &'static str) {
+/// the case asks for it), else JSON. dlf_style 1: every filter with the full element set (like dlt-viewer writes it);
+/// 2: every filter with the elements of its own criteria only (a reduced / hand-written file), so that a later filter
+/// omits elements an earlier one has
+fn filter_list(fs: &[AFilter], dlf_style: u32) -> (Result<Vec<Filter>, String>, &'static str) {
     let dlf_ok = fs.iter().all(|f| !f.not && f.lcs.k == "none" && f.ecu.k != "re" && (f.typ.k == "none" || (f.typ.k == "mstp" && f.typ.v == 3))
         && !(f.pay.k == "sub" && !f.pay.ic)); // a literal case-sensitive payload text is left to C11 (known finding there)
-    if want_dlf && dlf_ok && !fs.is_empty() {
+    if dlf_style > 0 && dlf_ok && !fs.is_empty() {
         let refs: Vec<&AFilter> = fs.iter().collect();
-        let t = render_dlf(&refs, true);
-        (filters_from_dlf(t.as_bytes()).map_err(|e| format!("{:?}", e)), "dlf")
+        let minimal = dlf_style == 2;
+        let t = render_dlf_file("", &refs, if minimal { DlfStyle::MinimalFlags } else { DlfStyle::Full });
+        let later_omits = (1..fs.len()).any(|j| (0..j).any(|i| dlf_elements(&fs[i]).iter().any(|e| !dlf_elements(&fs[j]).contains(e))));
+        let how = if !minimal { "dlf_full" } else if later_omits { "dlf_minimal_later_filter_omits_elements" } else { "dlf_minimal" };
+        (filters_from_dlf(t.as_bytes()).map_err(|e| format!("{:?}", e)), how)
     } else {
         (fs.iter().map(|f| Filter::from_json(&render_json(f, true).to_string()).map_err(|e| format!("{:?}", e))).collect(), "json")
     }
@@ -107,7 +125,7 @@ struct Pred {
     fwd: Vec<(Vec<usize>, usize, usize)>, // per stream: positions, passed, filtered
 }
 
-fn run_case(o: &mut Out, fs: &[AFilter], amsgs: &[AMsg], streams: &[Vec<usize>], pred: Option<&Pred>, sampled: bool, want_dlf: bool, src: &str) {
+fn run_case(o: &mut Out, fs: &[AFilter], amsgs: &[AMsg], streams: &[Vec<usize>], pred: Option<&Pred>, sampled: bool, dlf_style: u32, src: &str) {
     let case = o.case;
     o.case += 1;
     let msgs: Vec<DltMessage> = amsgs.iter().enumerate().map(|(i, m)| mk_dlt_msg(i as u32 + 1, m)).collect();
@@ -141,7 +159,7 @@ fn run_case(o: &mut Out, fs: &[AFilter], amsgs: &[AMsg], streams: &[Vec<usize>],
         o.bump("set_decisions", msgs.len() as u64);
     }
     // the stream filter
-    let (list, how) = filter_list(fs, want_dlf);
+    let (list, how) = filter_list(fs, dlf_style);
     o.bump(&format!("stream_filters_from_{}", how), 1);
     match list {
         Err(e) => failed = Some(format!("filter list ({}): {}", how, e)),
@@ -220,7 +238,7 @@ fn main() {
                     (serde_json::from_value(x["pos"].clone()).expect("pos"), x["passed"].as_u64().unwrap() as usize, x["filtered"].as_u64().unwrap() as usize)
                 }).collect(),
             };
-            run_case(&mut o, &fs, &amsgs, &streams, Some(&pred), sampled.contains(&i), i % 2 == 0, "tlc");
+            run_case(&mut o, &fs, &amsgs, &streams, Some(&pred), sampled.contains(&i), [2, 0, 1, 2][i % 4], "tlc");
             o.bump("scenarios", 1);
         }
     }
@@ -277,7 +295,7 @@ fn main() {
             }
             st
         }).collect();
-        run_case(&mut o, &fs, &amsgs, &streams, None, true, false, "random");
+        run_case(&mut o, &fs, &amsgs, &streams, None, true, 0, "random");
         o.bump("random_cases", 1);
     }
     o.t.flush();
